@@ -71,6 +71,8 @@ func checkC14(c *Ctx, r *Report) {
 	// final completion code, not one the command layer keeps retrying under the dead reservation
 	// (rule shared with C10)
 	checkTemporaryCodes(c, r)
+	// the packed ID-string encodings, character by character (shared with C20, C07)
+	checkPackedDecoders(c, r)
 
 	walk, mu := c.findSDRWalk()
 	if walk == nil {
